@@ -5,6 +5,8 @@ import (
 	"regexp"
 	"strconv"
 	"strings"
+	"unicode"
+	"unicode/utf8"
 
 	"github.com/zerx-lab/wordZero/pkg/document"
 )
@@ -324,16 +326,89 @@ func (w *MarkdownWriter) extractParagraphText(para *document.Paragraph) string {
 
 	var result strings.Builder
 
-	for _, run := range para.Runs {
-		text := w.formatRunText(&run)
-		result.WriteString(text)
+	// 相邻且格式相同的Run先合并：逐个Run加标记会得到 **a****b**，连在一起的标记无法解析
+	runs := w.mergeRuns(para.Runs)
+	for i := range runs {
+		var prev, next *document.Run
+		if i > 0 {
+			prev = &runs[i-1]
+		}
+		if i+1 < len(runs) {
+			next = &runs[i+1]
+		}
+		result.WriteString(w.formatRunText(&runs[i], prev, next))
 	}
 
 	return result.String()
 }
 
-// formatRunText 格式化文本运行
-func (w *MarkdownWriter) formatRunText(run *document.Run) string {
+// runFormat 导出时起作用的字符格式
+type runFormat struct {
+	bold, italic, strike, code bool
+}
+
+// runFormatOf 返回Run中Markdown能够表达的格式
+func (w *MarkdownWriter) runFormatOf(run *document.Run) runFormat {
+	props := run.Properties
+	if props == nil {
+		return runFormat{}
+	}
+	return runFormat{
+		bold:   props.Bold != nil,
+		italic: props.Italic != nil,
+		strike: props.Strike != nil,
+		code:   w.isCodeStyle(props),
+	}
+}
+
+// mergeRuns 把相邻且格式相同的Run合并为一个。没有文本的Run不输出任何内容，直接跳过；
+// 只含空白的Run不带标记，并入前一个Run
+func (w *MarkdownWriter) mergeRuns(runs []document.Run) []document.Run {
+	merged := make([]document.Run, 0, len(runs))
+	for i := range runs {
+		text := runs[i].Text.Content
+		if text == "" {
+			continue
+		}
+		if n := len(merged); n > 0 {
+			last := &merged[n-1]
+			if strings.TrimSpace(text) == "" || w.runFormatOf(last) == w.runFormatOf(&runs[i]) {
+				last.Text.Content += text
+				continue
+			}
+			if strings.TrimSpace(last.Text.Content) == "" {
+				// 开头只含空白的Run并入后一个Run
+				text = last.Text.Content + text
+				merged = merged[:n-1]
+			}
+		}
+		run := runs[i]
+		run.Text.Content = text
+		merged = append(merged, run)
+	}
+	return merged
+}
+
+// touchesWord 判断强调标记在这一侧是否紧挨着相邻Run的字母或数字
+// （空白、标点以及相邻Run自己的标记都不算）
+func (w *MarkdownWriter) touchesWord(neighbor *document.Run, atEnd bool) bool {
+	if neighbor == nil {
+		return false
+	}
+	var r rune
+	if atEnd {
+		r, _ = utf8.DecodeLastRuneInString(neighbor.Text.Content)
+	} else {
+		r, _ = utf8.DecodeRuneInString(neighbor.Text.Content)
+	}
+	if unicode.IsSpace(r) || unicode.IsPunct(r) || unicode.IsSymbol(r) {
+		return false
+	}
+	return w.runFormatOf(neighbor) == runFormat{}
+}
+
+// formatRunText 格式化文本运行；prev和next是段落中前后相邻的Run（没有时为nil）
+func (w *MarkdownWriter) formatRunText(run, prev, next *document.Run) string {
 	if run == nil {
 		return ""
 	}
@@ -367,7 +442,14 @@ func (w *MarkdownWriter) formatRunText(run *document.Run) string {
 				text = "**" + text + "**" // 粗体
 			}
 		} else if run.Properties.Italic != nil {
-			text = w.opts.EmphasisMarker + text + w.opts.EmphasisMarker // 斜体
+			marker := w.opts.EmphasisMarker
+			// 紧挨着字母或数字的下划线不是强调标记（x_a_y），此时改用星号
+			// （有删除线时斜体标记外面还有 ~~，不会挨着相邻的文本）
+			if marker == "_" && run.Properties.Strike == nil &&
+				((lead == "" && w.touchesWord(prev, true)) || (trail == "" && w.touchesWord(next, false))) {
+				marker = "*"
+			}
+			text = marker + text + marker // 斜体
 		}
 
 		// 检查删除线
